@@ -999,7 +999,7 @@ func cmdMem(args []string) {
 	// window phase (not logged call by call): a sliding window over FRESH keys at a bounded live size - groups of siblings
 	// are inserted, deleted in varying orders (largest first, smallest first, inside out, random) and never seen again.
 	// Nothing of a deleted group may stay behind. Judged as tree 3.
-	window := func(ins func(g, j int), del func(g, j int), keep any) {
+	window := func(ins func(g, j int), del func(g, j int), miss func(i int), keep any) {
 		wcp := func(phase string, first bool, done int) {
 			tr.start("Checkpoint")
 			tr.fInt("t", 3)
@@ -1046,36 +1046,96 @@ func cmdMem(args []string) {
 			}
 			wcp("window", false, done)
 		}
+		// queries whose arguments are FRESH absent keys every time (failed lookups, failed deletes, bounds nobody stored):
+		// nothing may be remembered per argument
+		for i := 0; i < *ops/20; i++ {
+			miss(i)
+		}
+		wcp("q-miss", true, 0)
+		for c := 0; c < 2; c++ {
+			for i := 0; i < *ops/4; i++ {
+				miss(*ops + c**ops + i)
+			}
+			wcp("q-miss", false, (c+1)**ops/4)
+		}
 		runtime.KeepAlive(keep)
 	}
 	switch d.Name() {
 	case "uint64":
 		wt := art.NewUnsignedBinaryTree[uint64, int]()
 		wt.Insert(1<<60, 0) // one permanent key: the groups hang below inner nodes, not the root
-		window(func(g, j int) { wt.Insert(uint64(g)<<16|uint64(j*5), j) }, func(g, j int) { wt.Delete(uint64(g)<<16 | uint64(j*5)) }, wt)
+		window(func(g, j int) { wt.Insert(uint64(g)<<16|uint64(j*5), j) }, func(g, j int) { wt.Delete(uint64(g)<<16 | uint64(j*5)) },
+			func(i int) {
+				k := uint64(i)<<20 | 0xabcde
+				wt.Search(k)
+				wt.Delete(k)
+				for range wt.Range(k, k+3) {
+				}
+			}, wt)
 	case "uint32":
 		wt := art.NewUnsignedBinaryTree[uint32, int]()
 		wt.Insert(1<<31, 0)
-		window(func(g, j int) { wt.Insert(uint32(g%(1<<22))<<8|uint32(j*5), j) }, func(g, j int) { wt.Delete(uint32(g%(1<<22))<<8 | uint32(j*5)) }, wt)
+		window(func(g, j int) { wt.Insert(uint32(g%(1<<22))<<8|uint32(j*5), j) }, func(g, j int) { wt.Delete(uint32(g%(1<<22))<<8 | uint32(j*5)) },
+			func(i int) {
+				k := uint32(i)<<4 | 0x7
+				wt.Search(k)
+				wt.Delete(k)
+				for range wt.Range(k, k+3) {
+				}
+			}, wt)
 	case "alpha/string":
 		wt := art.NewAlphaSortedTree[string, int]()
 		wt.Insert("zz", 0)
 		key := func(g, j int) string { return fmt.Sprintf("w/%07x/session-id/%c%c", g, 'A'+j/2, 'a'+j%2) }
-		window(func(g, j int) { wt.Insert(key(g, j), j) }, func(g, j int) { wt.Delete(key(g, j)) }, wt)
+		window(func(g, j int) { wt.Insert(key(g, j), j) }, func(g, j int) { wt.Delete(key(g, j)) },
+			func(i int) {
+				k := fmt.Sprintf("miss/%09x", i)
+				wt.Search(k)
+				wt.Delete(k)
+				for range wt.Range(k, k+"z") {
+				}
+				for range wt.Prefix(k) {
+				}
+			}, wt)
 	case "alpha/bytes":
 		wt := art.NewAlphaSortedTree[[]byte, int]()
 		wt.Insert([]byte("zz"), 0)
 		key := func(g, j int) []byte { return []byte(fmt.Sprintf("%06x%c", g, '0'+j)) }
-		window(func(g, j int) { wt.Insert(key(g, j), j) }, func(g, j int) { wt.Delete(key(g, j)) }, wt)
+		window(func(g, j int) { wt.Insert(key(g, j), j) }, func(g, j int) { wt.Delete(key(g, j)) },
+			func(i int) {
+				k := []byte(fmt.Sprintf("m%08x", i))
+				wt.Search(k)
+				wt.Delete(k)
+				for range wt.Range(k, append(k, 'z')) {
+				}
+				for range wt.Prefix(k) {
+				}
+			}, wt)
 	case "collation/string/und":
 		wt := art.NewCollationSortedTree[string, int]()
 		wt.Insert("zz", 0)
 		key := func(g, j int) string { return fmt.Sprintf("w%07x-%c%c", g, 'a'+j/3, 'a'+j%3) }
-		window(func(g, j int) { wt.Insert(key(g, j), j) }, func(g, j int) { wt.Delete(key(g, j)) }, wt)
+		window(func(g, j int) { wt.Insert(key(g, j), j) }, func(g, j int) { wt.Delete(key(g, j)) },
+			func(i int) {
+				k := fmt.Sprintf("miss %08x", i)
+				wt.Search(k)
+				wt.Delete(k)
+				for range wt.Range(k, k+"z") {
+				}
+				for range wt.Prefix(k) {
+				}
+			}, wt)
 	case "float64":
 		wt := art.NewFloatBinaryTree[float64, int]()
 		wt.Insert(-1, 0)
-		window(func(g, j int) { wt.Insert(float64(g)*64+float64(j), j) }, func(g, j int) { wt.Delete(float64(g)*64 + float64(j)) }, wt)
+		window(func(g, j int) { wt.Insert(float64(g)*64+float64(j), j) }, func(g, j int) { wt.Delete(float64(g)*64 + float64(j)) },
+			func(i int) {
+				k := float64(i) + 0.5
+				wt.Search(k)
+				wt.Delete(k)
+				for range wt.Range(k, k+0.25) {
+				}
+			}, wt)
 	}
 	runtime.KeepAlive(d)
 	tr.Close()
